@@ -131,6 +131,8 @@ def floors(tier):
         'hist:projects-added': 20 if q else 400,
         'hist:projects-removed': 20 if q else 400,
         'dup-name:refused': 2 if q else 40,
+        'hist:near-namesakes:case-only': 10 if q else 200,
+        'hist:near-namesakes:same-basename': 5 if q else 100,
         'distinct_nontrivial': 60000 if q else 60000,
     }
 
@@ -289,6 +291,20 @@ def gen_proj_case(rng, idx):
 NAME_POOL = ['a', 'b', 'c', 'gen', 'out.txt', 'data.bin', 'x.y', 'my step',
              'sub/a', 'sub/b', 'sub/deep/c', 'a/b', 'a/a', 'tools/run', 'd-1',
              'e_2', 'f g/h i', 'z', 'sub/deep', 'lib/libq.a']
+# Names that are distinct strings (hence distinct projects, valid for every
+# back end on a case-sensitive file system) but collide under some
+# normalisation: letter case, trailing dot / blank, Unicode case folding
+# (sharp s, dotted capital I), the basename alone.
+NEAR_CLUSTERS = [
+    ['report', 'Report', 'REPORT', 'report.', 'report '],
+    ['gen', 'Gen', 'gEN', 'gen.'],
+    ['sub/a', 'Sub/a', 'sub/A', 'SUB/A', 'a', 'A'],
+    ['stra\u00dfe', 'STRASSE', 'strasse', 'Stra\u00dfe', 'STRA\u1e9eE'],
+    ['\u0130x', 'i\u0307x', 'ix', 'Ix', 'IX'],
+    ['tools/run', 'bin/run', 'run', 'Tools/Run', 'tools/Run'],
+    ['out.txt', 'Out.txt', 'out.TXT', 'd/out.txt', 'D/out.txt'],
+    ['\u00e9t\u00e9', '\u00c9t\u00e9', '\u00c9T\u00c9', 'e\u0301te\u0301'],
+]
 COPY_SRC = ['data/in1.txt', 'data/in 2.txt', 'top.txt']
 PHONY = ('command', 'alias')
 
@@ -368,12 +384,29 @@ class Hist:
         self.steps = []
         self.default = None
         self.n = 0
+        self.removed = []     # (kind, name) of steps that were removed
+        self.pool = NAME_POOL
+        if flavour == 'near':
+            self.clusters = rng.sample(NEAR_CLUSTERS, 3)
+            self.pool = [n for c in self.clusters for n in c]
+
+    def cluster_mate(self):
+        """(existing step, unused name of the same cluster) or None"""
+        rng = self.rng
+        used = {s['name']: s for s in self.steps if isinstance(s['name'], str)}
+        cands = []
+        for c in getattr(self, 'clusters', []):
+            here = [n for n in c if n in used]
+            free = [n for n in c if n not in used]
+            if here and free:
+                cands.append((used[rng.choice(here)], rng.choice(free)))
+        return rng.choice(cands) if cands else None
 
     def fresh_name(self, kind):
         rng = self.rng
         for _ in range(50):
-            nm = rng.choice(NAME_POOL)
-            if rng.random() < 0.15:
+            nm = rng.choice(self.pool)
+            if rng.random() < (0.15 if self.flavour != 'near' else 0.03):
                 nm = nm + str(rng.randint(2, 9))
             if kind == 'build_step' and rng.random() < 0.2:
                 nm = [nm, rng.choice(NAME_POOL) + '.h']
@@ -404,15 +437,40 @@ class Hist:
             if st['name'] is None:
                 return None
         pos = rng.randint(0, len(self.steps))
+        mate = None
+        if name is not None and self.flavour == 'near':
+            mate = next((s for s in self.steps if s.get('mate_of') == name), None)
+        if mate is not None:
+            pos = rng.randint(self.steps.index(mate) + 1, len(self.steps))
         earlier = self.steps[:pos]
         k = rng.choice([0, 1, 1, 2, 3]) if kind != 'alias' else rng.choice([1, 2, 3])
         st['deps'] = [s['id'] for s in rng.sample(earlier, min(k, len(earlier)))]
+        if mate is not None:
+            mate.pop('mate_of', None)
+            if mate['id'] not in st['deps']:
+                st['deps'].append(mate['id'])    # the near-namesake depends on it
         if kind in ('command', 'build_step'):
             files = [s for s in earlier if s['kind'] in ('build_step', 'copy_file')]
             if files and rng.random() < 0.4:
                 st['use'] = [rng.choice(files)['id']]
         self.steps.insert(pos, st)
         return st
+
+    def add_near(self):
+        """Add a step whose name is a near-namesake of an existing step and
+        which depends on it."""
+        pair = self.cluster_mate()
+        if pair is None:
+            return None
+        old, name = pair
+        for kind in self.rng.sample(['command', 'build_step', 'alias'], 3):
+            trial = {'kind': kind, 'name': name, 'src': None}
+            if model_valid(self.steps + [trial]):
+                old['mate_of'] = name
+                st = self.add(kind, name)
+                old.pop('mate_of', None)
+                return st
+        return None
 
     def fix_order(self):
         seen = set()
@@ -425,14 +483,32 @@ class Hist:
 
     def mutate(self):
         rng = self.rng
-        op = rng.choice(['add', 'add', 'remove', 'remove', 'rename', 'rewire',
-                         'retype', 'reorder', 'default', 'keep'])
+        ops = ['add', 'add', 'remove', 'remove', 'rename', 'rewire',
+               'retype', 'reorder', 'default', 'keep']
+        if self.flavour == 'near':
+            ops += ['add-near', 'add-near', 'add-near', 'readd', 'readd']
+        op = rng.choice(ops)
+        if op == 'add-near':
+            return 'add-near' if self.add_near() else 'keep'
+        if op == 'readd':
+            # a project that existed earlier comes back under the same name
+            rng.shuffle(self.removed)
+            for kind, name in self.removed:
+                trial = {'kind': kind, 'name': name, 'src': None}
+                if kind != 'copy_file' and model_valid(self.steps + [trial]) \
+                   and self.add(kind, name) is not None:
+                    self.removed.remove((kind, name))
+                    self.fix_order()
+                    return 'readd'
+            return 'keep'
         if op == 'add' or len(self.steps) < 2:
             self.add()
             return 'add'
         if op == 'remove':
             st = rng.choice(self.steps)
             self.steps.remove(st)
+            if not st.get('injected'):
+                self.removed.append((st['kind'], st['name']))
         elif op == 'rename':
             st = rng.choice(self.steps)
             old = st['name']
@@ -484,6 +560,9 @@ def gen_history(rng, tier, idx, flavour):
     h = Hist(rng, flavour)
     for _ in range(rng.randint(3, 6)):
         h.add()
+    if flavour == 'near':
+        for _ in range(rng.randint(1, 2)):
+            h.add_near()
     h.fix_order()
     nruns = rng.randint(5, 6) if tier == 'quick' else rng.randint(6, 9)
     runs = []
@@ -493,7 +572,7 @@ def gen_history(rng, tier, idx, flavour):
         if r:
             for _ in range(rng.randint(1, 3)):
                 ops.append(h.mutate())
-        if flavour != 'plain' and r == special_at:
+        if flavour not in ('plain', 'near') and r == special_at:
             ops.append(inject_collision(h, rng, flavour))
         snap = h.snapshot(project)
         snap['how'] = 'configure' if r == 0 else rng.choice(
@@ -545,7 +624,8 @@ def cases(tier, seed):
     flav = ['same-name', 'copy-prefix', 'proj-suffix']
     for i in range(nh):
         c = gen_history(core.rng_for(seed, 'c20hist', i), tier, i,
-                        flav[(i // 4) % 3] if i % 4 == 3 else 'plain')
+                        flav[(i // 4) % 3] if i % 4 == 3 else
+                        'near' if i % 4 == 1 else 'plain')
         c['sample'] = i == 0
         yield c
     for i in range(24 if q else 400):
@@ -1049,6 +1129,21 @@ def parse_sln(text):
     return sln, errors
 
 
+def name_relation(a, b):
+    """How two distinct project names are related (witness field / coverage)."""
+    import unicodedata
+    if a.lower() == b.lower() or a.upper() == b.upper():
+        return 'case-only'
+    nf = [unicodedata.normalize('NFKD', x).casefold() for x in (a, b)]
+    if nf[0] == nf[1]:
+        return 'unicode-casefold'
+    if a.rstrip('. ').lower() == b.rstrip('. ').lower():
+        return 'trailing-dot-or-blank'
+    if os.path.basename(a).lower() == os.path.basename(b).lower():
+        return 'same-basename'
+    return 'unrelated'
+
+
 def guid_hex(g):
     return g.strip('{}').replace('-', '').lower()
 
@@ -1327,10 +1422,21 @@ def run_hist(case):
             ndeps = sum(len(p['deps']) for p in obs['sln']['projects'])
             res.key(['hist', case['tag'], ri],
                     changed or (len(cur) >= 2 and ndeps > 0))
+            ns = sorted(cur)
+            for i, a in enumerate(ns):
+                for b in ns[i + 1:]:
+                    rel = name_relation(a, b)
+                    if rel != 'unrelated':
+                        res.ev('hist:near-namesakes:' + rel)
+                        res.classes.add('hist:near-namesakes:' + rel)
             if prev is not None:
+                res.ev('hist:projects-readded', len(
+                    (set(cur) - set(prev['guids'])) & prev.get('gone', set())))
                 res.ev('hist:projects-added', len(set(cur) - set(prev['guids'])))
                 res.ev('hist:projects-removed', len(set(prev['guids']) - set(cur)))
-            prev = {'guids': cur, 'sln_guid': sg, 'model': model}
+            gone = (prev.get('gone', set()) | set(prev['guids'])) - set(cur) \
+                if prev else set()
+            prev = {'guids': cur, 'sln_guid': sg, 'model': model, 'gone': gone}
             res.classes.add('hist:' + run['how'])
             for op in run.get('ops') or []:
                 res.classes.add('hist:op:' + op)
@@ -1412,7 +1518,8 @@ def judge_run(res, obs, model, prev, base):
     for p in uniq:
         if p['guid'] in seen:
             viol(('solution', 'duplicate-guid'), name=p['name'],
-                 other=seen[p['guid']], guid=p['guid'])
+                 other=seen[p['guid']], guid=p['guid'],
+                 relation=name_relation(p['name'], seen[p['guid']]))
         seen[p['guid']] = p['name']
         if p['path'] in seen_path:
             viol(('solution', 'duplicate-path'), name=p['name'],
